@@ -48,7 +48,7 @@ def pyc_name(k):
 
 def reflect(ctx):
     """class hierarchy, method resolution tables and the class attributes read by the dispatch code, from the live classes"""
-    meths = [('Fwd ' + o, FWD[o]) for o in OPS] + [('Rev ' + o, REV[o]) for o in REV] + [('Import', '_import')]
+    meths = [('Fwd ' + o, FWD[o]) for o in OPS] + [('Rev ' + o, REV[o]) for o in REV]
     mro_lines, seen, dropped = [], {}, {}
     for c in CL:
         ks = []
@@ -265,10 +265,10 @@ def model_table(ctx, term='report H'):
         items.append(cur)
     for it in items:
         f = split_top(unparen(it))
-        if len(f) != 7:
+        if len(f) != 6:
             raise RuntimeError('cannot parse model row: ' + it[:200])
-        n, op, lk, rk, out, spec, cause = [unparen(x) for x in f]
-        rows[(int(n), op, lk, rk)] = (out, spec, None if cause == 'None' else cause.replace('Some ', ''))
+        n, op, lk, rk, out, spec = [unparen(x) for x in f]
+        rows[(int(n), op, lk, rk)] = (out, spec, None)      # third field: known root cause of a violating cell -- none is left
     return rows
 
 
@@ -282,15 +282,7 @@ def conforms(spec, out):
     return True    # Free
 
 
-CAUSE_WHAT = {
-    'Op2FallThrough': "SMPose._op2 has no else branch: pose +/- an operand that is neither the same class, a scalar nor a conforming array returns None",
-    'IsinstanceAsym': "SMPose.__mul__/__truediv__ test isinstance(left, right.__class__) while _op2 tests the opposite direction: SE3*SO3, SE3/SO3, SE2*SO2, SE2/SO2 return the identity",
-    'UserListAdd': "Twist2/Twist3/Plucker inherit UserList.__add__ (list concatenation): + with an operand whose elements have the same shape returns an object holding the other operand's elements",
-    'UserListRepeat': "spatial-vector classes inherit UserList.__mul__: SpatialVelocity * int is list repetition",
-    'DQMulNone': "DualQuaternion.__mul__ has no else branch: DualQuaternion * anything else returns None",
-    'UserListEq': "spatial vectors and SpatialInertia inherit UserList.__eq__: == / != of two objects of one class raises (truth value of an array)",
-    'PluckerEqMulti': "Plucker.__eq__/__ne__ compare first elements only: one bool for multi-valued operands instead of a list",
-}
+CAUSE_WHAT = {}     # root causes of violating cells of the model: all repaired (docs/C08.md), the table theorem is unguarded
 
 
 def short(out):
@@ -317,7 +309,7 @@ def check_cell(ctx, key, tab, rng=None, tag='table'):
                 ctx.fail('cause:' + cause, CAUSE_WHAT[cause] + f" -- e.g. {expr(n, op, lk, rk)} -> {obs}", replay)
                 ctx.count(tag + ':cells:' + cause)
             else:
-                # model and implementation agree on a violating cell that no known root cause covers (also breaks C08_table_partial)
+                # model and implementation agree on a violating cell that no known root cause covers (also breaks C08_table)
                 ctx.fail(f'cell:{op}:{short(obs)}:{site}', f"{expr(n, op, lk, rk)} -> {obs}, documented: {spec}", replay)
         return
     # implementation != model of the unchanged code
@@ -366,7 +358,7 @@ def run(ctx):
                          "the transcription of the documented table (Model/C08_Ops.v: documented) from the property text and the docstrings"]
     if not prepare(ctx):
         return
-    for f in ('C08.v', 'C08_clauses.v', 'C08_defects.v'):
+    for f in ('C08.v', 'C08_clauses.v', 'C08_mechanism.v'):
         ctx.prove('theories/Props/' + f)
     with ctx.timed('model-table'):
         tab = model_table(ctx)
